@@ -23,6 +23,8 @@ TNext ==
        [] e.ev = "Gate"  -> Gate(e)  /\ Rec(GateFailed(e))
        [] e.ev = "Read"  -> Read(e)  /\ Rec(ReadFailed(e))
        [] e.ev = "End"   -> End(e)   /\ Rec(EndFailed(e))
+       \* member-by-member reading: the Header values kept across Reset are still each member's own
+       [] e.ev = "Hdrs"  -> UNCHANGED rvars /\ Rec(Chk("C08.member_headers", e.ok))
        [] e.ev \in {"Crash", "Hang"} -> UNCHANGED rvars /\ RecBegin({"C03.nopanic", "C03.terminates"})
 
 TSpec == TInit /\ [][TNext]_tvars
